@@ -12,6 +12,8 @@ import (
 //	go-keyword           a node named like a Go keyword or predeclared identifier
 //	method-validate      a node named validate / Validate / populate-defaults (generated methods Validate, PopulateDefaults)
 //	method-accessor      a node whose CamelCase name equals a generated accessor of a sibling (get-x, new-x, append-x, delete-x, rename-x, get-or-create-x, set-x)
+//	method-annotation    a node named belonging-module, enum-type-map or list-key-map: with -annotations its annotation
+//	                     field Λ<Name> has the name of a generated method (ΛBelongingModule, ΛEnumTypeMap, ΛListKeyMap)
 //	helper-name          a node named like another generated helper / type (key, string, goStruct, is-yang-go-struct, binary, union, ...)
 //	digits-dots          legal identifiers with digits, dots, leading underscore, trailing separators
 //	enum-sanitise-clash  enum members equal after sanitising (a-b / a_b / a.b)
@@ -32,27 +34,34 @@ import (
 //	top-level-helper-name  a top-level node of an OpenConfig-style module whose CamelCase name is a package-level
 //	                     identifier of the generated code (schema, schema-tree, unzip-schema, unmarshal): under
 //	                     -compress_paths its struct has that bare name
+//	typedef-enum-same-name  two modules each define a typedef of an enumerated type (enumeration or identityref, directly
+//	                     or through a typedef chain) under the same name; not a hostile identifier: drawn in every mode
 const (
-	ClCamelSiblings  = "camelcase-siblings"
-	ClDashUnderscore = "dash-underscore"
-	ClGoKeyword      = "go-keyword"
-	ClMethodValidate = "method-validate"
-	ClMethodAccessor = "method-accessor"
-	ClHelperName     = "helper-name"
-	ClDigitsDots     = "digits-dots"
-	ClEnumSanitise   = "enum-sanitise-clash"
-	ClEnumUNSET      = "enum-UNSET"
-	ClEnumCase       = "enum-case-clash"
-	ClIdentSameName  = "identity-same-name"
-	ClIdentSanitise  = "identity-sanitise-clash"
-	ClKeyKey         = "key-Key"
-	ClKeyListName    = "key-list-name"
-	ClKeyCamel       = "key-camelcase"
-	ClKeyOrder       = "key-camelcase-misorder"
-	ClListChildKey   = "list-child-key"
-	ClKeyStructName  = "key-struct-name"
-	ClTopHelper      = "top-level-helper-name"
+	ClCamelSiblings    = "camelcase-siblings"
+	ClDashUnderscore   = "dash-underscore"
+	ClGoKeyword        = "go-keyword"
+	ClMethodValidate   = "method-validate"
+	ClMethodAccessor   = "method-accessor"
+	ClHelperName       = "helper-name"
+	ClDigitsDots       = "digits-dots"
+	ClEnumSanitise     = "enum-sanitise-clash"
+	ClEnumUNSET        = "enum-UNSET"
+	ClEnumCase         = "enum-case-clash"
+	ClIdentSameName    = "identity-same-name"
+	ClIdentSanitise    = "identity-sanitise-clash"
+	ClKeyKey           = "key-Key"
+	ClKeyListName      = "key-list-name"
+	ClKeyCamel         = "key-camelcase"
+	ClKeyOrder         = "key-camelcase-misorder"
+	ClListChildKey     = "list-child-key"
+	ClKeyStructName    = "key-struct-name"
+	ClTopHelper        = "top-level-helper-name"
+	ClTypedefSameName  = "typedef-enum-same-name"
+	ClMethodAnnotation = "method-annotation"
 )
+
+// lambdaWords: helper words whose annotation field (Λ + CamelCase name) is a generated method name.
+var lambdaWords = map[string]bool{"belonging-module": true, "enum-type-map": true, "list-key-map": true}
 
 // packageHelpers: CamelCase names of package-level functions / variables of every generated Go package.
 var packageHelpers = map[string]bool{"Schema": true, "SchemaTree": true, "UnzipSchema": true, "Unmarshal": true}
@@ -60,7 +69,7 @@ var packageHelpers = map[string]bool{"Schema": true, "SchemaTree": true, "UnzipS
 // AllClasses lists every collision class, sorted.
 func AllClasses() []string {
 	cs := []string{ClCamelSiblings, ClDashUnderscore, ClGoKeyword, ClMethodValidate, ClMethodAccessor, ClHelperName, ClDigitsDots,
-		ClEnumSanitise, ClEnumUNSET, ClEnumCase, ClIdentSameName, ClIdentSanitise, ClKeyKey, ClKeyListName, ClKeyCamel, ClKeyOrder, ClListChildKey, ClKeyStructName, ClTopHelper}
+		ClEnumSanitise, ClEnumUNSET, ClEnumCase, ClIdentSameName, ClIdentSanitise, ClKeyKey, ClKeyListName, ClKeyCamel, ClKeyOrder, ClListChildKey, ClKeyStructName, ClTopHelper, ClTypedefSameName, ClMethodAnnotation}
 	sort.Strings(cs)
 	return cs
 }
@@ -148,7 +157,11 @@ func (g *gen) nodeName(sc *scope, kind string) string {
 	case 5:
 		w := pick(g, helperWords, "hostile-helper")
 		if sc.free(w) {
-			n = try(ClHelperName, w)
+			if lambdaWords[w] {
+				n = try(ClMethodAnnotation, w)
+			} else {
+				n = try(ClHelperName, w)
+			}
 		}
 	case 6:
 		w := pick(g, oddWords, "hostile-odd")
